@@ -25,6 +25,17 @@ def job(j):
         if j["prop"] == "C11":
             c["gates"] = ser.ser_gates(qc.gates)
             c["names"] = [f"q{i}" for i in range(nq)]
+            # the library's own classical simulator (qcircuit/cnotsim.py) on every basis input of a classical circuit:
+            # one more implementation bound to spec/Circuit.tla (reported as conformance, outside the properties)
+            c["cnotsim"] = []
+            if nq <= 4 and all(g["k"] in ("X", "MCX", "BAR", "I") for g in c["gates"]) and not any(g["k"] in ("BAR", "I") for g in c["gates"]):
+                from qlasskit.qcircuit.cnotsim import CNotSim
+                try:
+                    for b in range(2 ** nq):
+                        fin = CNotSim().simulate(qc, initialize=[bool((b >> q) & 1) for q in range(nq)])
+                        c["cnotsim"].append([b, sum((1 << q) for q in range(nq) if fin[q])])
+                except Exception as e:
+                    c["cnotsim"] = [[-1, -1]]
             try:
                 res = Decompiler().decompile(qc)
                 c["sections"] = [{"s": int(s.index[0]), "e": int(s.index[1]), "gates": ser.ser_gates(s.gates),
@@ -127,7 +138,7 @@ def run(pid):
         # in batches, so that the recorded circuits of the thorough tier never sit in memory all at once
         vst, nontriv, clauses, conf = {}, 0, {}, {}
         stats = {"distinct": 0, "generated": 0}
-        ncases, samples, nid = 0, [], 0
+        ncases, samples, nid, nsim = 0, [], 0, 0
         B = 150   # jobs (of 40 strings) per batch
         for b0 in range(0, len(jobs), B):
             cases = [c for r in run_jobs(job, jobs[b0:b0 + B]) for c in r]
@@ -138,6 +149,7 @@ def run(pid):
             for k in stats:
                 stats[k] += st[k]
             ncases += len(cases)
+            nsim += sum(1 for c in cases if c.get("cnotsim"))
             for c in cases:
                 v = verdicts[c["id"]]
                 vst[v[0]] = vst.get(v[0], 0) + 1
@@ -160,7 +172,8 @@ def run(pid):
                     if pid == "C11" else
                     "one case = one gate string built as a real circuit and optimised; non-trivial = the optimiser removed at least one gate; unitaries compared exactly on every basis state by TLC (spec/QSim.tla)"),
            "generator_states": gst, "verdicts": vst, "failing_clauses": clauses,
-           "refinement": {("scanner_model_vs_real" if pid == "C11" else "decopt_model_vs_real"): conf, "model_checking": mc}}
+           "refinement": {("scanner_model_vs_real" if pid == "C11" else "decopt_model_vs_real"): conf, "model_checking": mc,
+                          "cnotsim_circuits_compared_with_Circuit.Run": nsim}}
     vac = None if vst.get("ok", 0) >= 200 and nontriv >= 50 else f"ok={vst.get('ok', 0)} nontrivial={nontriv}"
     return rep.finish(cov, T0.s(), assumptions=["spec/Circuit.tla, spec/BoolSem.tla, spec/QSim.tla (contract layer)"], vacuity=vac)
 
